@@ -669,6 +669,9 @@ def value_method(I, obj, name, args, kw, node):
         if name == "clear":
             obj.t = z3.Empty(S)
             return Conc(None)
+        if name == "insert" and isinstance(args[0], Conc) and args[0].obj == 0:
+            obj.t = z3.Concat(z3.Unit(I.lift(args[1])), obj.t)
+            return Conc(None)
         if name == "pop" and (not args or (isinstance(args[0], Conc) and args[0].obj in (0, -1))):
             if not I.decide(z3.Length(obj.t) > 0):
                 raise PyRaise(SymExc(IndexError, (), origin="pop from empty list"))
